@@ -175,6 +175,14 @@ def run_impl(c, d):
             out['raised'] = type(e).__name__ + ': ' + str(e)[:100]
             return out
     post = c.get('post')
+    src_grids = None
+    if post in ('crop', 'reblock'):
+        # the per-trace line numbers as the SOURCE file holds them (whatever the header detection made of them): the written
+        # file must hold the same values for the same traces
+        with SgzReader(p) as r0:
+            if r0.structured and r0.tracecount <= 4096:
+                src_grids = {int(k): r0.get_tracefield_values(k).copy() for k in r0.stored_header_keys if int(k) in (189, 193)}
+                src_box = (0, r0.n_ilines, 0, r0.n_xlines)
     if post == 'crop':
         # crop by index: the axes of the result are the source axes restricted to the box widened to unit boundaries and clipped
         n_i, n_x = len(out['src_il']), len(out['src_xl'])
@@ -184,6 +192,9 @@ def run_impl(c, d):
         b1 = min(n_x, b0 + 1 + c['box'][3] % n_x)
         q = os.path.join(d, 'crop.sgz')
         with SgzCropper(p) as cr:
+            if _hq(c) % 2 and cr.stored_header_keys:
+                # a look at a header grid on the same object (e.g. to choose the box) must not change what is written
+                cr.get_tracefield_values(cr.stored_header_keys[-1])
             quiet(cr.write_cropped_file_by_indexes, q, iline_index_range=(a0, a1), xline_index_range=(b0, b1),
                   zslices_index_range=(0, len(out['src_z'])))
         w = lambda lo, hi, n: (4 * (lo // 4), min(n, -(-hi // 4) * 4))
@@ -191,6 +202,7 @@ def run_impl(c, d):
         out['src_il'], out['src_xl'] = out['src_il'][i0:i1], out['src_xl'][x0:x1]
         out['src_tracecount'] = (i1 - i0) * (x1 - x0)
         out['crop_box'] = [a0, a1, b0, b1]
+        out['crop_units'] = ((i0, i1), (x0, x1))
         p = q
     if post == 'cropz_export':
         # three steps: convert, crop the SAMPLE axis at a non-zero start, export: the exported sample axis must be the
@@ -210,6 +222,8 @@ def run_impl(c, d):
     if post == 'reblock':
         q = os.path.join(d, 'adv.sgz')
         with SgzConverter(p) as cv:
+            if _hq(c) % 2 and cv.stored_header_keys:
+                cv.get_tracefield_values(cv.stored_header_keys[-1])
             quiet(cv.convert_to_adv_sgz, q)
         p = q
     with SgzReader(p) as r:
@@ -226,15 +240,31 @@ def run_impl(c, d):
         out['z'] = [fhex(v) for v in r.zslices]
         out['tracecount'], out['structured'] = int(r.tracecount), bool(r.structured)
         out['n_il'], out['n_xl'], out['n_s'] = int(r.n_ilines), int(r.n_xlines), int(r.n_samples)
+        if src_grids:
+            (i0_, i1_), (x0_, x1_) = out.get('crop_units', ((src_box[0], src_box[1]), (src_box[2], src_box[3])))
+            for k, g in src_grids.items():
+                got = r.get_tracefield_values(k) if k in [int(q_) for q_ in r.stored_header_keys] else None
+                want = g[i0_:i1_, x0_:x1_]
+                if got is None or got.shape != want.shape or not np.array_equal(got, want):
+                    out['trace_lines_bad'] = (f'per-trace header word {k} of the written file is not the source\'s for the same traces: '
+                                              f'{None if got is None else got.reshape(-1)[:4].tolist()} vs {want.reshape(-1)[:4].tolist()}')
+                    break
     if post == 'export':
         q = os.path.join(d, 'out.sgy')
         with SgzConverter(p) as cv:
+            if _hq(c) % 3 == 1 and cv.stored_header_keys:
+                cv.get_tracefield_values(cv.stored_header_keys[-1])
             quiet(cv.convert_to_segy, q)
         with segyio.open(q) as f:
             out['exp_il'], out['exp_xl'] = [int(v) for v in f.ilines], [int(v) for v in f.xlines]
             out['exp_z'] = [fhex(v) for v in f.samples]
             out['exp_tracecount'] = int(f.tracecount)
     return out
+
+
+def _hq(c):
+    """which cases precede a write by a header query on the same object: a function of the case, so that replays agree"""
+    return sum(int(v) for v in (c.get('box') or [c['ns']])) + c['ns']
 
 
 def close_enough(hx, hy):
@@ -273,6 +303,8 @@ def oracle(c, o):
             bad.append(f"exported SEG-Y axes {o['exp_il']} {o['exp_xl']} / {o['exp_tracecount']} traces != source")
         if len(o['exp_z']) != len(o['src_z']) or not all(close_enough(x, y) for x, y in zip(o['exp_z'], o['src_z'])):
             bad.append(f"exported SEG-Y samples {[float.fromhex(v) for v in o['exp_z']]} != source")
+    if o.get('trace_lines_bad'):
+        bad.append(o['trace_lines_bad'])
     for b in bad:
         R.violation('oracle', inp, b)
 
